@@ -197,6 +197,16 @@ def check_garbage(ctx, rng, drv):
             # a truncation that leaves the whole header intact may still be selected by its name
             hdr = 424 if f.startswith("klm") else 146
             cases.append(("trunc-%s-%d" % (f, cut), data[:cut], False if cut < hdr else None))
+        # the same file behind an archive header, cut at every structural boundary and one byte either side
+        adata = build_file(ctx, f, "NSS.%s.%s.D02187.S1904.E2058.B0921517.GC" % (filegen.FMT[f]["mode"], filegen.FMT[f]["plat"]),
+                           archive=True)
+        base = 512 if f.startswith("klm") else 122
+        rec = len(data) - 0
+        marks = [base, base + 16, base + hdr, base + (4608 if f == "klmGac" else 15872 if f == "klmLac" else 3220 if f == "podGac" else 14800)]
+        for m in marks:
+            for cut in (m - 1, m, m + 1):
+                if 0 < cut <= len(adata):
+                    cases.append(("trunc-archive-%s-%d" % (f, cut), adata[:cut], False if cut < base + hdr else None))
         gz = gzip.compress(data)
         for cut in [5, 10, 18, 30, len(gz) // 2, len(gz) - 1]:
             # a stream cut after the header has been delivered may still be selected by its name
